@@ -139,10 +139,13 @@ fn evaluate_do_block_expr(
             source.clone(),
         )?;
 
-        // Set lambda name if assigning a lambda
+        // Name the lambda after its first binding (the name is its self-reference; a later
+        // binding of the same function value must not change what the body sees)
         if let Value::Lambda(lambda_ptr) = val {
             let mut borrowed_heap = heap.borrow_mut();
-            if let Some(HeapValue::Lambda(lambda_def)) = borrowed_heap.get_mut(lambda_ptr.index()) {
+            if let Some(HeapValue::Lambda(lambda_def)) = borrowed_heap.get_mut(lambda_ptr.index())
+                && lambda_def.name.is_none()
+            {
                 lambda_def.name = Some(ident.clone());
             }
         }
@@ -413,11 +416,12 @@ pub fn evaluate_ast(
                 ));
             }
 
-            // Set lambda name if assigning a lambda
+            // Name the lambda after its first binding only
             if let Value::Lambda(lambda_ptr) = val {
                 let mut borrowed_heap = heap.borrow_mut();
                 if let Some(HeapValue::Lambda(lambda_def)) =
                     borrowed_heap.get_mut(lambda_ptr.index())
+                    && lambda_def.name.is_none()
                 {
                     lambda_def.name = Some(ident.clone());
                 }
